@@ -158,6 +158,9 @@ class Gen:
         cm = getattr(T, 'cache_mutation_sites', [])
         ob.append(('queries_do_not_mutate_cache', '%s = true' % str(not cm).lower(), 'reflexivity.', not cm,
                    'cachemutation:' + ','.join(sorted({'%s:%s' % (c['func'], c['key']) for c in cm}))))
+        db = getattr(T, 'detach_bad', [])
+        ob.append(('remove_detaches_as_attached', '%s = true' % str(not db and T.attach_ok and bool(T.detach)).lower(), 'reflexivity.',
+                   not db and T.attach_ok and bool(T.detach), 'detach:' + ','.join(sorted({x['func'] for x in db})) if db else 'detach:attach-side'))
         ob.append(('raw_writes_ok', '%s = true' % str(not T.raw_sites_bad).lower(), 'reflexivity.', not T.raw_sites_bad,
                    'rawwrite:' + ','.join('%s:%s' % (s[0], s[1]) for s in T.raw_sites_bad)))
         for t in T.transformers:
@@ -240,6 +243,8 @@ BASES = [
     ['V1 1 0 step 2', 'L1 1 2 3', 'R1 2 0 R'],
     ['V1 1 0 3', 'R1 1 2 2', 'W 2 3', 'R2 3 0 5', 'I1 0 2 1'],
     ['V1 1 0 step 2', 'R1 1 2 3', 'W 2 3', 'C1 3 0 2', 'R2 3 0 4'],
+    ['V1 1 0 12', 'R1 1 2 2', 'R2 2 0 4', 'E1 3 0 2 3 3', 'R3 3 0 8'],
+    ['V1 1 0 step 3', 'R1 1 2 2', 'E1 3 0 1 0 2', 'R2 3 2 4', 'C1 2 0 1'],
     ['I1 0 1 3', 'R1 1 2 2', 'W 2 3', 'W 3 4', 'R2 4 0 5', 'R3 2 0 6', 'W 0 5', 'R4 1 5 7'],
 ]
 OTHERS = [
@@ -258,7 +263,7 @@ XFORMS = [
 ]
 CHEAP_Q = ['complist', 'flags', 'switching', 'node_list', 'node_map', 'branch_list', 'enodes', 'cpts', 'nodes', 'lists', 'params', 'kinds']
 MID_Q = ['V', 'I', 'Vc', 'cg', 'sim', 'text']
-TOPO_Q = ['wired_to', 'is_wired_to', 'across', 'in_series', 'in_parallel', 'loops', 'nodeinfo', 'enodes', 'node_map', 'cg']
+TOPO_Q = ['unconnected', 'nodes', 'nodes', 'wired_to', 'is_wired_to', 'across', 'in_series', 'in_parallel', 'loops', 'nodeinfo', 'enodes', 'node_map', 'cg']
 COSTLY_Q = ['transfer', 'impedance', 'ss', 'nodal', 'mesh', 'thevenin', 'symbols']
 
 
@@ -275,7 +280,7 @@ class NetModel:
         p = line.split()
         if p[0] == 'W':
             p[0] = 'W#%d' % len(self.cpts)
-        self.cpts[p[0]] = p[1:3]
+        self.cpts[p[0]] = p[1:5] if p[0][0] == 'E' and len(p) > 5 else p[1:3]
         if p[0][0] in 'RLC' and len(p) > 3:
             self.vals[p[0]] = p[3]
 
@@ -329,7 +334,7 @@ def rand_query(rng, model, tier, kinds=None):
 
 
 def rand_add(rng, model):
-    typ = rng.choice(['R', 'R', 'R', 'C', 'L', 'V', 'I', 'W', 'W', 'SW', 'R', 'C'])
+    typ = rng.choice(['R', 'R', 'R', 'C', 'L', 'V', 'I', 'W', 'W', 'SW', 'R', 'C', 'E', 'E'])
     nodes = model.nodes()
     a = rng.choice(nodes)
     b = rng.choice([n for n in nodes if n != a] + [str(len(nodes) + 3)])
@@ -339,6 +344,9 @@ def rand_add(rng, model):
         name = '%s%d' % (typ, rng.randint(4, 9))
     if typ == 'W':
         return 'W %s %s' % (a, b), 'W%s%s' % (a, b)
+    if typ == 'E':
+        c = rng.choice(nodes)
+        return '%s %s %s %s %s %d' % (name, a, b, c, rng.choice([a, a, b, c]), rng.randint(2, 5)), name
     if typ == 'SW':
         return '%s %s %s no %d' % (name, a, b, rng.randint(0, 2)), name
     if typ == 'V':
@@ -384,7 +392,7 @@ def gen_session(rng, tier, sid, nops=None):
             name = rng.choice([c for c in models[o].cpts if not c.startswith('W')] or ['R1'])
             steps.append({'op': 'mut', 'obj': o, 'm': {'how': rng.choice(['open_circuit', 'short_circuit']), 'name': name}})
         elif r < 0.72:
-            how = rng.choice(['copy', 'copy', 'subs', 'kill', 'simplify', 'select', 'replace', 'laplace', 'r_model', 'prune', 'kill_except', 'transient', 'dc'])
+            how = rng.choice(['remove_dangling', 'remove_disconnected', 'copy', 'copy', 'subs', 'kill', 'simplify', 'select', 'replace', 'laplace', 'r_model', 'prune', 'kill_except', 'transient', 'dc'])
             d = {'how': how}
             m2 = models[o].copy()
             if how == 'subs':
@@ -447,6 +455,23 @@ def targeted_sessions(T, rng, bad_keys, bad_ops, workdir):
                 [{'op': 'query', 'obj': 'a', 'q': {'k': 'V', 'a': '2'}}]})
     out.append({'id': 'target_xforms_rev', 'steps': [dict(x) for x in reversed(xs)] + [{'op': 'new', 'obj': 'a', 'text': '\n'.join(BASES[3])},
                 {'op': 'query', 'obj': 'a', 'q': {'k': 'V', 'a': '2'}}] + [dict(x) for x in xs]})
+    # node table after removing / re-adding components whose terminals share a node
+    for bi, name, line in ((len(BASES) - 4, 'E1', 'E1 3 0 2 3 3'), (len(BASES) - 3, 'E1', 'E1 3 0 1 0 2')):
+        base = BASES[bi]
+        obs = [{'op': 'query', 'obj': 'a', 'q': {'k': k}} for k in ('nodes', 'unconnected', 'node_list')] + \
+              [{'op': 'derive', 'obj': 'a', 'as': 'd%d', 'd': {'how': 'remove_dangling'}}]
+        steps = [{'op': 'new', 'obj': 'a', 'text': '\n'.join(base)}]
+        k = 0
+        for m in ({'how': 'remove', 'name': name}, {'how': 'remove', 'name': [l.split()[0] for l in base if l.split()[0] != name][-1]},
+                  {'how': 'add', 'line': line}, {'how': 'add', 'line': line}):
+            steps.append({'op': 'mut', 'obj': 'a', 'm': m})
+            for o in obs:
+                o = json.loads(json.dumps(o))
+                if 'as' in o:
+                    k += 1
+                    o['as'] = 'd%d' % k
+                steps.append(o)
+        out.append({'id': 'target_nodetable_%d' % bi, 'steps': steps})
     # node-level and topology queries, twice and in two orders, with no mutation in between
     for bi in (len(BASES) - 2, len(BASES) - 1):
         base = BASES[bi]
@@ -1420,7 +1445,11 @@ def run(tier='quick', replay=None):
             if key.startswith('history:') and key not in known_keys:
                 # causes with a structural fingerprint
                 anon = lambda t: re.sub(r'(_?nodeanon|[A-Za-z]+anon)#?\d+', '@', t)
-                if anon(obs) == anon(conf) and 'anon' in obs:
+                db = getattr(T, 'detach_bad', []) if T is not None else []
+                if db and any(x['op'] == 'mut' and x['m']['how'] in ('remove', 'add', 'open_circuit') for x in small['steps']) and \
+                        ce['what'] in ('query:nodes', 'query:nodeinfo', 'query:unconnected', 'query:node_list', 'derive:remove_dangling', 'derive:remove_disconnected'):
+                    key = 'detach:' + ','.join(sorted({x['func'] for x in db}))
+                elif anon(obs) == anon(conf) and 'anon' in obs:
                     key = 'anon-name-reuse'
                 elif override_is_cause(small, fresh, memo_attrs):
                     key = 'override-add'
